@@ -653,6 +653,153 @@ def check_json(text_res, expected, html_safe):
 
 
 # ------------------------------------------------------------------------------------------
+# re-entrancy programs (tid 200): Serialize impls that convert other data while a conversion runs
+# ------------------------------------------------------------------------------------------
+PROG_TID = 200
+N_INT, N_EMB, N_PROBE, N_SEQ, N_TUPLE, N_MAP, N_STRUCT, N_NVAR, N_TVAR, N_SVAR, N_SOME, N_NESTED, N_DROP, N_CATCH, N_THREAD, N_FAIL, N_PANIC = range(17)
+N_NAMES = ["int", "embedded", "probe", "seq", "tuple", "map", "struct", "newtype-variant", "tuple-variant", "struct-variant", "some",
+           "nested-conversion", "nested-conversion(dropped)", "nested-conversion(catch_unwind)", "conversion-on-other-thread", "fail", "panic"]
+COMPOUND = (N_SEQ, N_TUPLE, N_MAP, N_STRUCT, N_TVAR, N_SVAR)
+UNARY = (N_NVAR, N_SOME, N_NESTED, N_DROP, N_CATCH, N_THREAD)
+
+
+def enc_node(n):
+    k = n[0]
+    if k == N_INT or k == N_EMB: return [k, n[1]]
+    if k in COMPOUND:
+        out = [k, len(n[1])]
+        for x in n[1]: out += enc_node(x)
+        return out
+    if k in UNARY: return [k] + enc_node(n[1])
+    return [k]
+
+
+def show_node(n):
+    k = n[0]
+    if k == N_INT: return n[1]
+    if k == N_EMB: return "template-value#%d" % n[1]
+    if k in COMPOUND: return {N_NAMES[k]: [show_node(x) for x in n[1]]}
+    if k in UNARY: return {N_NAMES[k]: show_node(n[1])}
+    return N_NAMES[k]
+
+
+def has_kind(n, kinds):
+    if n[0] in kinds: return True
+    if n[0] in COMPOUND: return any(has_kind(x, kinds) for x in n[1])
+    if n[0] in UNARY: return has_kind(n[1], kinds)
+    return False
+
+
+def prog_case(tops):
+    out = [PROG_TID, 0, len(tops)]
+    for n in tops: out += enc_node(n)
+    return out
+
+
+def gen_progs(chk):
+    r = chk.rng
+    E = lambda k: (N_EMB, k)
+    emb = [E(0), E(1), E(2), (N_PROBE,)]
+    inner_plain = (N_STRUCT, [(N_INT, 1), E(8), (N_PROBE,)])
+    inners = [
+        (N_NESTED, inner_plain), (N_DROP, inner_plain), (N_CATCH, inner_plain), (N_THREAD, inner_plain),
+        (N_CATCH, (N_SEQ, [E(0), (N_PANIC,)])), (N_THREAD, (N_SEQ, [E(7), (N_PANIC,)])), (N_NESTED, (N_FAIL,)),
+        (N_NESTED, (N_SEQ, [E(6), (N_FAIL,), E(2)])),
+        (N_NESTED, (N_MAP, [E(2), (N_NESTED, (N_TUPLE, [E(0), (N_PROBE,)])), E(1), (N_PROBE,)])),     # two levels
+        (N_DROP, (N_SEQ, [(N_DROP, (N_INT, 0)), E(0)])),
+        (N_THREAD, (N_SEQ, [(N_NESTED, (N_SEQ, [E(2)])), (N_PROBE,), E(0)])),
+    ]
+    progs = []
+    for c in COMPOUND:
+        for inner in inners:
+            for pos in (0, 2, 4):
+                items = list(emb); items.insert(pos, inner)
+                progs.append([(c, items)])
+    for w in (N_NVAR, N_SOME):
+        for inner in inners[:4]:
+            progs.append([(N_STRUCT, [(w, inner), E(0), E(1), E(2), (N_PROBE,)])])
+    # conversions one after the other on the same thread, after a failed / panicked one
+    after = (N_STRUCT, [E(0), E(1), E(2), (N_PROBE,)])
+    progs += [[(N_PANIC,), after], [(N_SEQ, [E(0), (N_PANIC,)]), after], [(N_FAIL,), after],
+              [(N_SEQ, [(N_NESTED, (N_SEQ, [E(2), (N_PANIC,)])), E(0)]), after, after],
+              [(N_SEQ, [(N_CATCH, (N_PANIC,)), E(0), (N_PROBE,)]), after],
+              [(N_MAP, [(N_THREAD, (N_PANIC,)), E(1), (N_PROBE,)]), (N_PANIC,), after], [after, after, after]]
+
+    def rnd(depth):
+        w = r.below(20)
+        if depth >= 4 or w < 6: return [E(r.below(NPOOL)), E(r.below(3)), (N_PROBE,), (N_INT, r.below(100))][r.below(4)]
+        if w < 12: return (r.choice(COMPOUND), [rnd(depth + 1) for _ in range(1 + r.below(4))])
+        if w < 18: return (r.choice(UNARY), rnd(depth + 1))
+        return (N_FAIL,) if w == 18 else (N_PANIC,)
+    for _ in range(4000 if chk.thorough else 400):
+        progs.append([rnd(0) for _ in range(1 + r.below(3))])
+    return [prog_case(t) for t in progs], progs
+
+
+def parse_prog(out):
+    """-> list of (('ok', shape) | ('panic',) | ('err',), flag_after) + [final flag], or None"""
+    if not out or out[0] != 0: return None
+    try:
+        p = P(out, 1)
+        res = []
+        for _ in range(p.n()):
+            st = p.n()
+            r = ('ok', canon(parse_shape(p))) if st == 0 else (('panic',) if st == 2 else ('err',))
+            res.append((r, p.n()))
+        res.append(p.n())
+        return res if p.i == len(out) else None
+    except (ValueError, IndexError):
+        return None
+
+
+def evaluate_progs(chk, cases, progs, A):
+    """re-entrancy clause: every conversion (outermost or nested, on this or another thread, succeeding, failing or panicking)
+    leaves the thread's serialization state as it found it; embedded values come back identical wherever they stand"""
+    impl = {rel: run_impl("c16", cases, release=rel) for rel in (False, True)}
+    model = run_model("C16", "c16-prog", cases)
+    spec = run_model("C16", "c16-prog-spec", cases)
+    for i, c in enumerate(cases):
+        sp, mo = parse_prog(spec[i]), parse_prog(model[i])
+        if sp is None or mo != sp:
+            A["prog_model_vs_spec"].append((c, model[i][:200], spec[i][:200]))
+        n = progs[i]
+        nested = n is not None and any(has_kind(t, (N_NESTED, N_DROP, N_CATCH, N_THREAD)) for t in n)
+        A["hist"]["prog:" + ("nested conversions" if nested else "no nesting")] += 1
+        if n is not None and any(has_kind(t, (N_PANIC, N_FAIL)) for t in n): A["hist"]["prog:with failing/panicking part"] += 1
+        if nested: A["nontriv"].add(hashlib.sha256(fmt_case(c).encode()).digest()[:12])
+        for rel in (False, True):
+            prof = "release" if rel else "debug"
+            got = parse_prog(impl[rel][i])
+            if got != mo:
+                A["corr_bad"].append((c, prof, "nested conversions", impl[rel][i], model[i]))
+            if sp is not None and got != sp:
+                if got is None:
+                    why = "conversion crashed or gave an unreadable answer: %r" % (impl[rel][i][:3],)
+                elif [f for _, f in got[:-1]] + [got[-1]] != [0] * len(got):
+                    why = "serializing_for_value() is still true after a conversion finished"
+                else:
+                    why = ("an embedded template value did not come back as the very same value (or serializing_for_value() was false) "
+                           "inside a conversion whose Serialize impls convert other data")
+                A["viol"].append((c, None, prof, "reentrancy", why, show_node_list(n)))
+
+
+def show_node_list(n):
+    return None if n is None else [show_node(t) for t in n]
+
+
+def decode_prog(case):
+    """node trees of a tid-200 case (for replays)"""
+    p = P(case, 2)
+    def node():
+        k = p.n()
+        if k in (N_INT, N_EMB): return (k, p.n())
+        if k in COMPOUND: return (k, [node() for _ in range(p.n())])
+        if k in UNARY: return (k, node())
+        return (k,)
+    return [node() for _ in range(p.n())]
+
+
+# ------------------------------------------------------------------------------------------
 # cases
 # ------------------------------------------------------------------------------------------
 def make_case(tid, tree):
@@ -718,26 +865,38 @@ def main():
         rp = json.load(open(chk.replay))
         cases = [rp["replay"]["case"]]
         trees, nrand = [None], 0
+        pcases, progs = [], []
+        if cases[0][0] == PROG_TID:
+            pcases, progs, cases, trees = cases, [decode_prog(cases[0])], [], []
     else:
         cases, trees, nrand = gen_cases(chk)
+        pcases, progs = gen_progs(chk)
 
     A = {"hist": collections.Counter(), "nontriv": set(), "corr_bad": [], "viol": [], "py_spec_bad": [], "nstr": 0,
-         "kernel_ok": True, "kernel_n": 0}
+         "kernel_ok": True, "kernel_n": 0, "prog_model_vs_spec": []}
     CH = 4000
     for lo in range(0, len(cases), CH):
         evaluate(cases[lo:lo + CH], trees[lo:lo + CH], A, kernel=(lo == 0))
+    for lo in range(0, len(pcases), CH):
+        evaluate_progs(chk, pcases[lo:lo + CH], progs[lo:lo + CH], A)
     hist, nontriv, corr_bad, viol, py_spec_bad, kernel_ok = A["hist"], A["nontriv"], A["corr_bad"], A["viol"], A["py_spec_bad"], A["kernel_ok"]
 
-    chk.cov["evaluations"] = len(cases) * 2
+    chk.cov["evaluations"] = (len(cases) + len(pcases)) * 2
+    chk.cov["reentrancy_programs"] = len(pcases)
+    chk.cov["reentrancy_model_vs_spec_disagreements"] = len(A["prog_model_vs_spec"])
     chk.cov["distinct_nontrivial"] = len(nontriv)
     chk.cov["rule"] = ("%d seeded values over %d Rust types (every serde variant shape; depth <= 5) + the string pool exhaustively (%d strings as String, "
                        "%s of them also as map key and enum payload); each case runs in a debug and a release build, through the owned and the borrowed deserializer, "
                        "and through three JSON renderings; non-trivial = distinct case whose value has nesting depth >= 2 or is a string containing a control, "
-                       "quote, backslash, HTML or non-ASCII character" % (nrand, len(TYPES), A["nstr"] - sum(1 for t in trees[:nrand] if t and t[0] == STRING_TID),
-                                                                          "all" if chk.thorough else "a quarter"))
+                       "quote, backslash, HTML or non-ASCII character; plus %d re-entrancy programs (Serialize impls that perform Value::from(Serde(..)) "
+                       "before/between/after embedded values in struct fields, seq items, map values and enum payloads, two levels deep, failing, panicking, "
+                       "on another thread; several conversions in a row on one thread, also after a failed one; serializing_for_value() probed inside and outside), "
+                       "non-trivial when they contain a nested conversion"
+                       % (nrand, len(TYPES), A["nstr"] - sum(1 for t in trees[:nrand] if t and t[0] == STRING_TID), "all" if chk.thorough else "a quarter", len(pcases)))
     chk.cov["exhaustive"] = False
     chk.cov["samples"] = [{"type": TYPES[trees[i][0]][0], "value": show(trees[i][1])} for i in
-                          sorted(set([0, len(cases) // 5, len(cases) // 3, len(cases) // 2, max(0, nrand - 1), len(cases) - 1])) if trees[i] is not None]
+                          sorted(set([0, len(cases) // 5, len(cases) // 3, len(cases) // 2, max(0, nrand - 1), len(cases) - 1])) if 0 <= i < len(trees) and trees[i] is not None]
+    chk.cov["samples"] += [{"conversions_on_one_thread": show_node_list(progs[i])} for i in sorted(set([0, len(progs) // 2, len(progs) - 1])) if 0 <= i < len(progs)]
     chk.cov["distribution"] = dict(hist)
     chk.cov["impl_vs_model_disagreements"] = len(corr_bad)
     chk.cov["spec_runner_vs_python_disagreements"] = len(py_spec_bad)
@@ -747,13 +906,16 @@ def main():
     # --- verdicts ---
     seen_kinds = collections.Counter()
     reported = set()
-    for case, tree, prof, kind, why in viol:
+    for ent in viol:
+        case, tree, prof, kind, why = ent[:5]
         if (tuple(case), why) in reported: continue        # same failure in the other build profile
         reported.add((tuple(case), why))
         seen_kinds[kind] += 1
         if seen_kinds[kind] > 3: continue
-        rep = {"case": case, "type": TYPES[tid_of(case)][0], "profile": prof, "why": why, "how": "./check C16 --replay <this file>"}
+        rep = {"case": case, "type": TYPES[tid_of(case)][0] if tid_of(case) in TYPES else "re-entrancy program", "profile": prof, "why": why,
+               "how": "./check C16 --replay <this file>"}
         if tree is not None: rep["value"] = show(tree[1])
+        if len(ent) > 5 and ent[5] is not None: rep["conversions_on_one_thread"] = ent[5]
         if kind in ("HARNESS",):
             chk.violation("harness cannot build the case", dict(rep, theorem_or_correspondence="generator vs Rust type table"), True)
         else:
@@ -762,7 +924,12 @@ def main():
         if corr_bad:
             case, prof, what, io, mo = corr_bad[0]
             chk.violation("model and implementation disagree (%s)" % what, {"theorem_or_correspondence": "correspondence C16.Runner.run vs harness c16 (%s)" % what,
-                          "case": case, "type": TYPES[tid_of(case)][0], "profile": prof, "implementation": io[:200], "model": mo[:200]}, True)
+                          "case": case, "type": TYPES[tid_of(case)][0] if tid_of(case) in TYPES else "re-entrancy program", "profile": prof,
+                          "implementation": io[:200], "model": mo[:200]}, True)
+        if A["prog_model_vs_spec"]:
+            case, mo, so = A["prog_model_vs_spec"][0]
+            chk.violation("extracted model differs from extracted spec although reentrancy_transparent is proved",
+                          {"theorem_or_correspondence": "reentrancy_transparent (extraction)", "case": case, "model": mo, "spec": so}, True)
         if py_spec_bad:
             case, so = py_spec_bad[0]
             chk.violation("C16/Spec.v (well_typed, roundtrippable) and the check's own type table disagree", {"theorem_or_correspondence": "Spec.roundtrippable / has_type vs tools/props/C16.py",
